@@ -192,7 +192,7 @@ CLAIMS["C05"]["text"] = "Padding twins (SWEEP: the same region with the alignmen
 CLAIMS["C19"]["text"] = "ELFNAME names judged by an independent oracle (NUL-terminated bytes at the name index inside the designated string table, also tables that do not start with NUL); " + CLAIMS["C19"]["text"]
 CLAIMS["C03"]["text"] = "module iterator judged on every loaded region (not only spec-conformant ones) against the module tags of the specification's walk; " + CLAIMS["C03"]["text"]
 
-TABLES = ("IMPL-BLOCK TABLES (tools/gen_fns.py IMPL_TABLES -> Gen.Fns.tbl_*, Props/FnsTbl*.lean): for 64 impl / trait blocks of the three crates EVERY function of the block in source "
+TABLES = ("IMPL-BLOCK TABLES (tools/gen_fns.py IMPL_TABLES -> Gen.Fns.tbl_*, Props/FnsTbl*.lean): for 78 impl / trait blocks (every inherent impl of the three crates outside the builders and the test utilities) of the three crates EVERY function of the block in source "
           "order with its return type, translated body and inputs is compared with the reviewed table (tbl_*_eq, by rfl) - one-line forwarders and accessors included, so a typed getter "
           "that names another tag type, an accessor that returns another field, a changed body and any function ADDED to or REMOVED from the block breaks an obligation; meaning "
           "theorems on top: ")
